@@ -218,6 +218,42 @@ def check(facts, rep, tier, cfg):
                 rep.bad("C05.R5", "source-before-drain/%s" % label, w5, detail if res.get(val) else "no terminating teardown path")
         for okd, wd_, dd in rules_c08.dispatch_not_cut_short(facts, crate):
             (rep.ok if okd else rep.bad)("C05.R5", "dispatch-survives-errors", wd_, dd)
+    # ---- R9 the reader's end-of-stream decision is the inbound queue's own end
+    rep.rule("C05.R9", "the reader reports end-of-stream only when the flow's inbound queue has ended (its sender was dropped by the Finish / Reset / "
+                       "teardown reactions): the Option that decides Some(frame) / None derives from that queue's receive call alone - never from a "
+                       "constant None chosen on some other condition (outbound queue closed, a timer, a flag), which would report EOF before the "
+                       "frames still on their way")
+    k9 = 0
+    for b in crate.bodies:
+        if "stream" not in b.file or "::tests::" in b.path:
+            continue
+        recvs = [bi for bi, t in b.calls() if callee(t) and callee(t)["name"] in ("poll_recv", "recv", "try_recv") and "bytes::Bytes" in callee(t)["path"]
+                 and "Receiver" in callee(t)["path"]]
+        if not recvs:
+            continue
+        tr9 = Tracer(facts, b)
+        for gb in range(len(b.blocks)):
+            if b.term(gb)["k"] != "SwitchInt":
+                continue
+            g = guard_at(facts, b, tr9, gb)
+            if g is None or g.kind != "discr" or not (g.adt or "").endswith("option::Option"):
+                continue
+            if not any(x.kind == "call" and x[6] in ("poll_recv", "recv", "try_recv") and "Bytes" in x[2] for x in walk(g.pred)):
+                continue
+            k9 += 1
+            rep.analysed(b)
+            w9 = "%s (%s)" % (loc_str(b.term(gb)["loc"]), b.path)
+            p9 = strip(g.pred)
+            alts = list(p9[1]) if p9.kind == "phi" else [p9]
+            foreign = [a for a in alts if not any(x.kind == "call" and x[6] in ("poll_recv", "recv", "try_recv") for x in walk(a))]
+            if foreign:
+                rep.bad("C05.R9", "eof-from-queue-end/%s" % b.path.split("::{")[0], w9,
+                        "the reader's Some(frame) / None decision can also take the value `%s`, which does not come from the inbound queue: "
+                        "end-of-stream is reported on a condition other than the peer's Finish / Reset / the teardown having dropped the sender, "
+                        "i.e. possibly before data that is still on its way" % fmt(foreign[0])[:80])
+            else:
+                rep.ok("C05.R9", "eof-from-queue-end/%s" % b.path.split("::{")[0], w9, "None only from the queue's receive call")
+    rep.floor("C05.R9", "end-of-queue decisions in the reader", k9, 1)
     rep.rule("C05.R3", "Finish x Established only drops the inbound sender: no flow-table removal, no closed flag (half-close); EOF sources are the Finish / Reset / teardown cells")
     import rules_c10
     sub = type(rep)(rep.prop, rep.tier, rep.config)
